@@ -32,7 +32,7 @@ def check_units(F, R, rule, files, result_dim, loopfn, skip=()):
         # a file-local helper without declared parameter dimensions (e.g. the shared body of two sibling functions) is typed
         # where it is used: its callers are folded with the helper inlined and the actual arguments' dimensions
         local_helper = "(anonymous namespace)" in f["name"] and ("params", short) not in result_dim and short not in result_dim \
-            and any(p["t"] in ("double", "int") for p in f["params"]) and F.callers.get(k)
+            and F.callers.get(k)
         if local_helper:
             continue
         try:
@@ -48,6 +48,11 @@ def check_units(F, R, rule, files, result_dim, loopfn, skip=()):
             R.soft_broken("%s: %s: dimension cannot be inferred (%s)" % (rule, inst, "; ".join(unk[:2]) or "unmodelled call"))
             continue
         n += 1
+        if "(anonymous namespace)" in f["name"] and short not in result_dim and F.callers.get(k):
+            # a file-local helper may return a dimensionful intermediate (a mass scale): its body is consistent, and what the
+            # result is used for is typed in the callers, which are folded with the helper inlined
+            R.ok(rule, inst + " : GeV^%s (file-local helper, result typed at the call sites)" % d, F.loc(f))
+            continue
         R.check(rule, d == want or d == ANY, inst + " : GeV^%s" % d, F.loc(f),
                 "result has mass dimension %s, expected %s" % (d, want), key="%s|%s|result" % (rule, inst))
     return n
